@@ -149,7 +149,17 @@ func (h *history) run() {
 				var ret []byte
 				s.Obs = guarded(5*time.Second, func() ([]byte, error) {
 					data.Apply(ctx)
-					out, err := dyntpl.Render(key, ctx)
+					// the entry points that hand out bytes, in turn
+					var out []byte
+					var err error
+					switch (i / 2) % 3 {
+					case 0:
+						out, err = dyntpl.Render(key, ctx)
+					case 1:
+						out, err = dyntpl.RenderFallback(key, "no-such-fallback-template", ctx)
+					default:
+						out, err = dyntpl.RenderFallback("no-such-primary-template", key, ctx)
+					}
 					ret = out
 					return out, err
 				})
